@@ -158,6 +158,15 @@ class NpTr:
                     return t
                 if isinstance(op, ast.Eq):
                     return "(BNot %s)" % t
+        if (isinstance(e, ast.Call) and is_attr(e.func, "np", "issubdtype") and len(e.args) == 2 and not e.keywords
+                and is_attr(e.args[1], "np", "integer")):
+            if is_name(e.args[0], "signal_dtype"):
+                return "(BIsInt DSaved)"
+            if is_attr(e.args[0], "signal", "dtype"):
+                return "(BIsInt DCur)"
+            bad("issubdtype argument", e)
+        if isinstance(e, ast.Compare) and len(e.ops) == 1:
+            a, op, b = e.left, e.ops[0], e.comparators[0]
             if (isinstance(a, ast.Call) and is_name(a.func, "len") and len(a.args) == 1
                     and is_attr(a.args[0], "signal", "shape") and isinstance(op, ast.Eq)
                     and intlit(b) is not None):
@@ -171,6 +180,10 @@ class NpTr:
             f = s.value.func
             if is_attr(f, "warnings", "warn"):
                 return "SWarn"
+            c = s.value
+            if (is_attr(f, "np", "rint") and len(c.args) == 1 and is_name(c.args[0], "signal")
+                    and len(c.keywords) == 1 and c.keywords[0].arg == "out" and is_name(c.keywords[0].value, "signal")):
+                return "SRint"
             bad("call statement", s)
         if isinstance(s, ast.Assign) and len(s.targets) == 1:
             t, v = s.targets[0], s.value
